@@ -335,14 +335,20 @@ func (s *state) evalPrint(node *ast.PrintNode) {
 	var escapeHtml = s.autoescape != ast.AutoescapeOff
 	var result = s.val
 
-	for _, directiveName := range ObligatoryPrintDirectiveNames {
-		node.Directives = append(node.Directives, &ast.PrintDirectiveNode{
-			Pos:  node.Position(),
-			Name: directiveName,
-		})
+	// (the obligatory directives are added to a copy: the node belongs to the
+	// compiled bundle, which renders share and must not modify.)
+	var directives = node.Directives
+	if len(ObligatoryPrintDirectiveNames) > 0 {
+		directives = append([]*ast.PrintDirectiveNode{}, node.Directives...)
+		for _, directiveName := range ObligatoryPrintDirectiveNames {
+			directives = append(directives, &ast.PrintDirectiveNode{
+				Pos:  node.Position(),
+				Name: directiveName,
+			})
+		}
 	}
 
-	for _, directiveNode := range node.Directives {
+	for _, directiveNode := range directives {
 		var directive, ok = PrintDirectives[directiveNode.Name]
 		if !ok {
 			s.errorf("Print directive %q does not exist", directiveNode.Name)
